@@ -140,8 +140,27 @@ def run_history(ctx, items, hist, S, label):
     return calls, line, rep if hist else {}
 
 
+def source_frame(ctx):
+    """taskgen.py read with ast (harness/gen/tracer_frame.py): what a trace writes on the interpreter, what initialize rebinds, what run_trace
+    returns - the state Model/TracerHeap.v carries from one call to the next must be all there is"""
+    import os
+    from gen import tracer_frame
+    from vcommon import paths
+    try:
+        info = tracer_frame.analyse(os.path.join(paths.REPO, "src/bloqade/shuttle/codegen/taskgen.py"))
+    except Exception as e:
+        ctx.obligation("source: taskgen.py can be read by the state-frame reader", False, f"{type(e).__name__}: {e}"[:300])
+        return
+    ctx.extra["source_state_frame"] = info
+    for name, ok, detail in tracer_frame.obligations(info):
+        ctx.obligation(name, ok, detail[:300])
+    ok, log = coqrun.compile_lemma_file(ctx.bdir, "Gen_C15_src", tracer_frame.coq_file(info))
+    ctx.obligation("Gen_C15_src: the model's state is written state, and every written attribute is reset (compiled)", ok, log[-400:])
+
+
 def run(ctx):
     S = tweezer_prog.harness_spec()
+    source_frame(ctx)
     ctx.rule = ("histories of run_trace calls on ONE TraceInterpreter: all sequences up to a length bound over 5 fixed (kernel, args) items "
                 "(2 succeeding, fail-before-set_loc, shape-mismatch-after-moves, failing assert) and random sequences up to length 12 over "
                 "generated kernels; each result snapshotted at return and re-read after every later call, compared with a fresh instance, "
